@@ -482,7 +482,9 @@ class Probes:
             time.sleep(0)
             if self.c_hold:
                 self.c_hold()
-            return object()
+            # (a memoized result may be anything: "undetermined" is None for the library's
+            # own cell size; falsy values are results like any other)
+            return {1: None, 2: 0}.get(args[0] if args else None, object())
 
         self.ts_probe, self.c_probe = ts_probe, c_probe
 
@@ -555,7 +557,7 @@ def stress_round(seed, env, res, probes):
     env.set_winsize(cols, rows, cols * cw, rows * ch)
     term_image.enable_win_size_swap()
     term_image.disable_win_size_swap()
-    nkeys = rnd.randint(1, 3)
+    nkeys = rnd.randint(1, 4)
     results = [None] * n
     errors = []
 
